@@ -86,6 +86,7 @@ const c44StoreUses = 4000
 var (
 	c44Pool    = make(chan *c44Store, 64)
 	c44NameSeq atomic.Int64
+	c44SoftSeen atomic.Bool
 )
 
 func c44Acquire() *c44Store {
@@ -137,7 +138,7 @@ type c44Cfg struct {
 	For, Kff int64
 	// ModelFor/ModelKff differ from For/Kff only in the self-test.
 	ModelFor, ModelKff int64
-	Ops                string // "base": evaluations + restart/restore; "hold": evaluations + hold change; "full": all
+	Ops                string // "evals": evaluations only; "base": + restart/restore; "hold": evaluations + hold change; "full": all
 }
 
 type c44Sys struct {
@@ -237,11 +238,11 @@ func (s *c44Sys) Ops() []string {
 		}
 		return ops
 	}
-	if s.cfg.Ops != "hold" {
+	if s.cfg.Ops == "base" || s.cfg.Ops == "full" {
 		ops = append(ops, "restart")
 	}
 	for _, h := range c44Holds {
-		if h != s.m.For && s.cfg.Ops != "base" {
+		if h != s.m.For && (s.cfg.Ops == "hold" || s.cfg.Ops == "full") {
 			ops = append(ops, fmt.Sprintf("hold/%d", h))
 		}
 	}
@@ -285,7 +286,14 @@ func (s *c44Sys) apply(op string, check bool) *vx.Fail {
 		nb := len(s.rec.batches)
 		s.notified = nil
 		s.g.Eval(context.Background(), c44Time(now))
-		ex := s.m.eval(now, s.present)
+		ex := s.m.eval(now, s.present, func(l string) bool {
+			for _, a := range s.rule.currentAlerts() {
+				if a.Labels.Get("s") == l {
+					return a.State == StatePending
+				}
+			}
+			return false
+		})
 		s.count(check, ex.Events)
 		// samples committed by this evaluation
 		var got []string
@@ -301,6 +309,7 @@ func (s *c44Sys) apply(op string, check bool) *vx.Fail {
 		sort.Strings(got)
 		if ex.Soft != "" {
 			// known finding: report (soft) and carry on with the implementation's answer adopted
+			c44SoftSeen.Store(true)
 			s.r.Violation("keep-firing-alert-below-new-for-turns-pending-while-absent",
 				fmt.Sprintf("alert %s is absent from the evaluation at %d and within keep_firing_for, but its activation is less than 'for'=%ds ago (hold duration raised by a reload, or activation shifted by RestoreForState): the statement keeps it firing, the implementation reports it as pending (ALERTS{alertstate=\"pending\"}) although the expression does not return it, and drops it without a resolved notification at the next evaluation; history %v", ex.Soft, now, s.m.For, s.hist),
 				map[string]any{"config": s.name, "ops": append([]string{}, s.hist...)})
@@ -492,7 +501,8 @@ func (s *c44Sys) Key() string {
 	var prev []string
 	for _, m := range s.g.seriesInPreviousEval {
 		for _, l := range m {
-			prev = append(prev, l.String())
+			// the instance-specific alert name is normalised away
+			prev = append(prev, strings.ReplaceAll(l.String(), `"`+s.alert+`"`, `"al"`))
 		}
 	}
 	sort.Strings(prev)
@@ -509,43 +519,68 @@ func (s *c44Sys) Close() {
 
 // ---------------------------------------------------------------------------------------------
 
+// c44SelfTest shows that the oracle is not vacuous: after a short run on which implementation and
+// model agree, the model's expectation is corrupted in several ways and every corruption must be
+// reported. (If the short run itself disagrees, that is a violation like any other and the
+// self-test is skipped.)
 func c44SelfTest(t *testing.T, r *vx.Run) {
-	run := func(cfg c44Cfg, ops ...string) *vx.Fail {
-		s := c44NewSys(r, "selftest", cfg)
-		defer s.Close()
-		for _, op := range ops {
-			if f := s.Apply(op, false); f != nil {
-				return f
+	cfg := c44Cfg{For: c44D, Kff: c44D, ModelFor: c44D, ModelKff: c44D}
+	prefix := []string{"e/AB/1", "e/A/3", "restart", "e/A/1", "e/A/2"}
+	build := func() *c44Sys {
+		s := c44NewSys(r, "for=3,kff=3,full", cfg)
+		for _, op := range prefix {
+			if f := s.Apply(op, true); f != nil {
+				r.Violation(f.Signature, f.Message, map[string]any{"config": s.name, "ops": s.hist})
+				s.Close()
+				return nil
 			}
 		}
-		return nil
+		return s
 	}
-	// a correct run first
-	if f := run(c44Cfg{For: c44D, Kff: c44D, ModelFor: c44D, ModelKff: c44D}, "e/A/1", "e/A/3", "e/-/1", "e/-/3", "e/-/900", "e/-/1", "restart", "e/A/1", "e/A/1", "restore", "e/A/1"); f != nil {
-		t.Fatalf("self-test: unexpected failure: %s", f.Message)
+	type corruption struct {
+		what string
+		do   func(s *c44Sys) *vx.Fail
 	}
-	// the oracle must reject an implementation whose 'for' differs from the model's
-	if f := run(c44Cfg{For: 0, Kff: 0, ModelFor: c44D, ModelKff: 0}, "e/A/1"); f == nil {
-		t.Fatal("self-test: oracle accepted an alert firing before 'for' elapsed")
+	cs := []corruption{
+		{"state flipped", func(s *c44Sys) *vx.Fail {
+			a := s.m.Alerts["A"]
+			if a.St == c44Pending {
+				a.St = c44Firing
+			} else {
+				a.St = c44Pending
+			}
+			return s.compareMemory("e")
+		}},
+		{"activation time off by one", func(s *c44Sys) *vx.Fail { s.m.Alerts["A"].ActiveAt++; return s.compareMemory("e") }},
+		{"alert missing", func(s *c44Sys) *vx.Fail { delete(s.m.Alerts, "A"); return s.compareMemory("e") }},
+		{"extra alert", func(s *c44Sys) *vx.Fail {
+			s.m.Alerts["B"] = &c44Alert{St: c44Resolved, ResolvedAt: 1}
+			return s.compareMemory("e")
+		}},
+		{"keep_firing_for ignored by the model", func(s *c44Sys) *vx.Fail {
+			s.Apply("restore", false)
+			s.Apply("e/A/1", false)
+			s.m.Kff = 0
+			return s.Apply("e/-/1", false)
+		}},
+		{"'for' of the model larger", func(s *c44Sys) *vx.Fail { s.m.For = 2 * c44D; s.Apply("restore", false); return s.Apply("e/A/1", false) }},
+		{"stored for-state sample forgotten by the model", func(s *c44Sys) *vx.Fail { delete(s.m.Stored, "A"); return s.Apply("restore", false) }},
+		{"staleness marker expected but not written", func(s *c44Sys) *vx.Fail {
+			s.Apply("restore", false)
+			s.m.Prev[c44AlertsKey("B", c44Pending)] = true
+			return s.Apply("e/A/1", false)
+		}},
 	}
-	// ... and one whose keep_firing_for differs
-	if f := run(c44Cfg{For: 0, Kff: 0, ModelFor: 0, ModelKff: c44D}, "e/A/1", "e/-/1"); f == nil {
-		t.Fatal("self-test: oracle accepted an alert resolving inside keep_firing_for")
-	}
-	// ... and a wrong restore (model thinks 'for' is below the grace period => no restore)
-	if f := run(c44Cfg{For: c44D, Kff: 0, ModelFor: c44D, ModelKff: 0}, "e/A/1", "e/A/1", "restart", "e/A/1", "e/A/1", "restore"); f != nil {
-		t.Fatalf("self-test: unexpected failure: %s", f.Message)
-	}
-	s := c44NewSys(r, "selftest", c44Cfg{For: c44D, Kff: 0, ModelFor: c44D, ModelKff: 0})
-	defer s.Close()
-	for _, op := range []string{"e/A/1", "e/A/2", "restart", "e/A/1", "e/A/2"} {
-		if f := s.Apply(op, false); f != nil {
-			t.Fatalf("self-test: %s", f.Message)
+	for _, c := range cs {
+		s := build()
+		if s == nil {
+			return
 		}
-	}
-	delete(s.m.Stored, "A") // model forgets the stored sample => predicts no restoration
-	if f := s.Apply("restore", false); f == nil || f.Signature != "restored-activation-mismatch" {
-		t.Fatalf("self-test: oracle did not notice a restored activation time it did not predict (%v)", f)
+		f := c.do(s)
+		s.Close()
+		if f == nil {
+			t.Fatalf("self-test: oracle accepted a wrong expectation (%s)", c.what)
+		}
 	}
 }
 
@@ -580,14 +615,35 @@ func TestVerifC44(t *testing.T) {
 		depth int
 	}
 	var plans []plan
-	dFull := vx.Pick(r, 5, 7)
+	add := func(forD, kff int64, ops string, depth int) {
+		plans = append(plans, plan{fmt.Sprintf("for=%d,kff=%d,%s", forD, kff, ops), depth})
+	}
+	// "evals": every timeline of evaluations; "base": + restart / RestoreForState; "hold": evaluations
+	// + reload with a changed 'for'; "full": everything. Sizes are chosen from measured transition
+	// counts (about 0.3 ms CPU per transition).
+	dEvals := vx.Pick(r, 5, 7)
 	for _, f := range []int64{0, c44D} {
 		for _, k := range []int64{0, c44D} {
-			plans = append(plans, plan{fmt.Sprintf("for=%d,kff=%d,full", f, k), dFull})
+			add(f, k, "evals", dEvals)
 		}
 	}
+	if r.Quick() {
+		add(c44D, c44D, "base", 5)
+		add(c44D, 0, "base", 5)
+		add(c44D, c44D, "full", 4)
+		add(0, c44D, "full", 4)
+	} else {
+		add(c44D, c44D, "base", 7)
+		add(c44D, 0, "base", 7)
+		add(0, c44D, "base", 5)
+		add(0, 0, "base", 5)
+		add(c44D, c44D, "hold", 6)
+		add(c44D, c44D, "full", 5)
+		add(0, c44D, "full", 5)
+	}
+	custom := false
 	if v := os.Getenv("VERIF_C44_PLAN"); v != "" { // e.g. "for=3,kff=3,full:4;for=0,kff=0,norestart:6"
-		plans = nil
+		plans, custom = nil, true
 		for _, p := range strings.Split(v, ";") {
 			name, d, _ := strings.Cut(p, ":")
 			depth, _ := strconv.Atoi(d)
@@ -604,23 +660,32 @@ func TestVerifC44(t *testing.T) {
 	}
 	r.Set("rule", "explicit-state BFS over timelines of one alerting rule in a real Group; operations: evaluation with result set in {-,A,B,AB} (sample values change with the parity of the timestamp) after an interval in {1,d-1,d,d+1,retention} s (d=3s), restart, RestoreForState (after the 1st or 2nd evaluation following a restart) against a real test storage, reload with 'for' changed to one of {0,d,2d}; after every transition in-memory alerts, appended ALERTS/ALERTS_FOR_STATE samples incl. staleness markers and notified alerts are compared with the reference state machine")
 	r.Set("alphabet", map[string]any{"result_sets": c44Sets, "intervals_s": c44Dts, "for_s": c44Holds, "keep_firing_for_s": []int64{0, c44D}, "outage_tolerance_s": c44Tol, "grace_period_s": c44Grace, "resolved_retention_s": c44Ret})
-	r.Set("depth", dFull)
+	pl := map[string]int{}
+	for _, p := range plans {
+		pl[p.name] = p.depth
+	}
+	r.Set("depth", pl)
 	r.Assume("keep_firing_for is measured from the first evaluation in which the alert was absent (the moment the condition was observed to have cleared)")
 	r.Assume("a resolved alert is retained while evaluation time - resolved time <= 15m (inclusive)")
 	r.Assume("resend delay 0: every non-pending alert in memory is passed to the notify function at every evaluation")
 	r.Assume("timestamps are whole seconds (ALERTS_FOR_STATE stores the activation time in seconds); state de-duplication treats states that differ only by a shift of all times by an even number of seconds as equal")
 	r.Assume("samples committed by Group.Eval are recorded by an in-memory Appendable and copied unchanged into a real test storage (util/teststorage) before RestoreForState runs")
 	// vacuity: every class of behaviour named in the statement must have been exercised
-	need := []string{"pending-to-firing", "pending-dropped", "resolved", "kept-firing", "resolved-after-keep-firing", "resolved-reappears", "retained", "stale-marker", "hold-changed"}
-	if dFull >= 5 {
-		need = append(need, "restore-skipped-for-below-grace", "restore-was-firing", "restore-grace", "restore-shift-by-downtime", "restore-outage-exceeded", "restore-last-sample-stale", "firing-back-to-pending")
+	need := []string{"pending-to-firing", "pending-dropped", "resolved", "kept-firing", "resolved-after-keep-firing", "resolved-reappears", "reappears-while-kept-firing", "retained", "retention-expired", "stale-marker", "hold-changed",
+		"restore-skipped-for-below-grace", "restore-was-firing", "restore-grace", "restore-shift-by-downtime", "restore-outage-exceeded", "restore-last-sample-stale", "restore-no-series", "firing-back-to-pending"}
+	hard := r.Violations()
+	if c44SoftSeen.Load() {
+		hard--
 	}
-	if dFull >= 4 {
-		need = append(need, "retention-expired")
+	if hard > 0 {
+		return // states behind a violation are not expanded, coverage is then incomplete by design
 	}
 	for _, e := range need {
-		if r.Get("ev_"+e) == 0 && !r.Expired() {
+		if r.Get("ev_"+e) == 0 && !r.Expired() && !custom {
 			t.Fatalf("vacuous run: behaviour %q was never exercised", e)
 		}
+	}
+	if n := r.Distinct("distinct_outcomes", ""); !custom && !r.Expired() && r.Get("states") < 1000 {
+		t.Fatalf("vacuous run: only %d states (%v)", r.Get("states"), n)
 	}
 }
